@@ -18,7 +18,7 @@ static int verif_sched_mode = -1;    /* 0 off, 1 seed, 2 list */
 static uint64_t verif_sched_state;
 static long verif_sched_max = 500, verif_sched_default = 0;
 static long *verif_sched_list, verif_sched_list_len, verif_sched_list_pos;
-static long verif_sched_slices, verif_sched_switches, verif_dl_checks, verif_sched_budget;
+static long verif_sched_slices, verif_sched_switches, verif_dl_checks, verif_sched_budget, verif_sched_quanta;
 static uint64_t verif_sched_hash = 1469598103934665603ULL;
 static void *verif_sched_last;
 #define VERIF_MAX_THREADS 64
@@ -58,6 +58,16 @@ static sexp_sint_t verif_slice (sexp ctx, sexp_sint_t fuel) {
   int i;
   if (verif_sched_mode < 0) verif_sched_init();
   if (!verif_sched_mode || fuel <= 0) return fuel;
+  /* a budget in logical steps (quanta handed out, waiting ones included), so that "never finishes" is decided */
+  /* without a wall clock */
+  if (verif_sched_budget == 0) verif_sched_budget = getenv("CHIBI_VERIF_MAXSLICES") ? atol(getenv("CHIBI_VERIF_MAXSLICES")) : -1;
+  if (verif_sched_budget > 0 && ++verif_sched_quanta > verif_sched_budget) {
+    sexp_verif_logf("STEP-BUDGET quanta=%ld slices=%ld switches=%ld waiting=%d front=%d paused=%d\n", verif_sched_quanta,
+                    verif_sched_slices, verif_sched_switches, (int)sexp_context_waitp(ctx),
+                    (int)sexp_pairp(sexp_global(ctx, SEXP_G_THREADS_FRONT)), (int)sexp_pairp(sexp_global(ctx, SEXP_G_THREADS_PAUSED)));
+    verif_sched_report();
+    _exit(87);
+  }
   /* only while there is somebody to switch to: keeps single-threaded phases (module loading) at */
   /* full speed and makes an explicit slice list start with the first multi-threaded quantum     */
   if (!sexp_pairp(sexp_global(ctx, SEXP_G_THREADS_FRONT)) && !sexp_pairp(sexp_global(ctx, SEXP_G_THREADS_PAUSED)))
@@ -72,13 +82,6 @@ static sexp_sint_t verif_slice (sexp ctx, sexp_sint_t fuel) {
     res = verif_sched_default;
   }
   verif_sched_slices++;
-  /* a budget in logical steps (time slices), so that "never finishes" is decided without a wall clock */
-  if (verif_sched_budget == 0) verif_sched_budget = getenv("CHIBI_VERIF_MAXSLICES") ? atol(getenv("CHIBI_VERIF_MAXSLICES")) : -1;
-  if (verif_sched_budget > 0 && verif_sched_slices > verif_sched_budget) {
-    sexp_verif_logf("STEP-BUDGET slices=%ld switches=%ld\n", verif_sched_slices, verif_sched_switches);
-    verif_sched_report();
-    _exit(87);
-  }
   if ((void*)ctx != verif_sched_last) {
     verif_sched_last = (void*)ctx;
     verif_sched_switches++;
